@@ -261,7 +261,7 @@ theorem step_refines {m : VLog} (hi : Inv m) (op : Op) :
               (fun c hc => hle c (mem_dropLast _ _ hc)) (hi.stagesSorted.sublist (List.dropLast_sublist _))
             simp only []
             exact ⟨by rw [e1], e2⟩
-  | checkpoint => fin hi
+  | checkpoint => exact ⟨rfl, hi.setLastCp _⟩
   | revert cp =>
     simp only [Spec.step, VLog.step]
     have hmk : (abs m).marks = m.stages := rfl
